@@ -142,7 +142,9 @@ func c01Body(sc *WF) Verdict {
 		for i, seg := range segs {
 			l := sc.Nodes[seg[0].Leaf].Leaf
 			runStore := rr.Store
-			if sc.depth(sc.Root) >= 2 {
+			if !rootIsLeaf {
+				// a node inside a flow: "the run" hands it the store the flow works on - which store
+				// that is (the caller's, a working copy published back, ...) is C10's clause
 				runStore = nil
 			}
 			msg, succeeded, act := c01Segment(seg, runStore, l)
@@ -205,7 +207,7 @@ func c01Body(sc *WF) Verdict {
 
 func checkC01(t *testing.T, sc WF) Verdict {
 	var v Verdict
-	if f := Bubble(t, func() { v = c01Body(&sc) }); f != "" {
+	if f := Bubble(t, func() { v = c01Body(&sc) }); f != "" && !goroutinesRemain(f) {
 		return bad("C01:bubble", "%s", f)
 	}
 	return v
